@@ -194,6 +194,7 @@ func (r *c07Runner) exec(client, seq int, op c07Op, rqHook func(*s3x.Req), o s3x
 	if resp.TimedOut {
 		ev.Note = "timeout"
 		ev.Status = -2
+		c07Wedged.Store(true)
 	}
 	switch op.K {
 	case "get":
@@ -516,7 +517,14 @@ func c07Setup(cs c07Case) *c07Runner {
 	return r
 }
 
+// c07Wedged is set once a request did not return: every further schedule of this process would wait
+// for its watchdogs too, so the remaining cases are skipped (the run is a violation already).
+var c07Wedged atomic.Bool
+
 func c07Exec(cs c07Case) (ds []disc, evs []c07Ev, overlapping bool) {
+	if c07Wedged.Load() {
+		return nil, nil, false
+	}
 	r := c07Setup(cs)
 	defer r.st.Close()
 	var wg sync.WaitGroup
@@ -527,6 +535,9 @@ func c07Exec(cs c07Case) (ds []disc, evs []c07Ev, overlapping bool) {
 			defer wg.Done()
 			<-start
 			for si, op := range ops {
+				if c07Wedged.Load() {
+					return // a request of this schedule did not return: the rest would only wait too
+				}
 				r.exec(ci, si, op, nil, s3x.DoOpts{Timeout: 30 * time.Second})
 			}
 		}(ci, ops)
@@ -534,11 +545,17 @@ func c07Exec(cs c07Case) (ds []disc, evs []c07Ev, overlapping bool) {
 	close(start)
 	wg.Wait()
 	// quiescence: final reads join the history (oracle vi)
-	for k := 0; k < cs.Keys; k++ {
+	for k := 0; k < cs.Keys && !c07Wedged.Load(); k++ {
 		r.exec(99, k, c07Op{K: "get", Key: k}, nil, s3x.DoOpts{Timeout: 30 * time.Second})
 	}
 	evs = r.evs
 	ds, overlapping = c07Judge(cs, evs)
+	for _, d := range ds {
+		if d.Kind == "did-not-return" {
+			c07Wedged.Store(true)
+			return // the server is wedged: the follow-up reads would only wait as well
+		}
+	}
 	// (iv) every versioned upload is retrievable by its ID with exactly its content
 	if cs.Versioned {
 		for _, e := range evs {
